@@ -6,6 +6,10 @@ def S(name, build, tiers=("quick", "thorough"), args=(), **kw):
     return d
 
 STAGES = {
+    "C02": [
+        S("native", "native", timeout=3000),
+        S("release-workers", "release", tiers=("thorough",), args=["--release-workers"], timeout=3000),
+    ],
     "C03": [S("native", "native", timeout=2400)],
     "C08": [S("native", "native")],
     "C17": [S("native", "native")],
@@ -34,6 +38,7 @@ STAGES = {
 }
 
 LEVELS = {
+    "C02": "exploration",
     "C03": "fault_enumeration",
     "C08": "exploration",
     "C17": "exploration",
@@ -56,6 +61,12 @@ LEVELS = {
 }
 
 ASSUMPTIONS = {
+    "C02": [
+        "bounded time is decided as: the worker uses less than 20 s of CPU (a normal dump uses ~10 ms) and returns within a 90 s wall-clock watchdog",
+        "a thread name or mapping name that is not UTF-8 makes the dump return Err: allowed by the statement",
+        "inputs the kernel never reports (malformed /proc text) are not fed",
+        "one known finding in the dependency procfs-core is listed in KNOWN_FINDINGS.txt",
+    ],
     "C03": [
         "signals carry unique ids (rt_tgsigqueueinfo + si_value); standard signals are sent at most once per (thread, signal number) at a time so coalescing cannot hide a loss",
         "job-control stop signals (SIGTSTP/SIGTTIN/SIGTTOU) are excluded: the kernel discards pending stop signals whenever SIGCONT is generated",
@@ -135,6 +146,11 @@ ASSUMPTIONS = {
 }
 
 META = {
+    "C02": {
+        "technique": "outcome classification of real dumps run in rlimit-ed, watchdogged worker subprocesses against hostile targets (linker-chain variants, corrupted mapped ELF files, hostile names, /dev/shm mappings under an inotify IN_OPEN monitor, target killed at hook points) and hostile options (crash registers at address-space extremes and mapping bounds, direct-auxv extremes); in-process panic capture on the pure entry points",
+        "level_text": "Every live dump runs in `vh worker` under RLIMIT_CPU/RLIMIT_AS with a wall-clock watchdog; panic, abort, CPU-limit and timeout are violations, Ok/Err are fine. 600+ (quick) / 5000+ (thorough, debug and release profiles) worker runs over 13 hostile linker-chain variants, corrupted ELF files mapped under hostile names, direct-auxv extremes, crash registers drawn from extremes and every mapping bound +-1, 13 kill points; an inotify watch on the mapped /dev/shm files must stay silent. 50k+ in-process calls of the path/version derivation and get_stack_info with panic capture. Exploration.",
+        "level_note": "Totality over generated inputs only; blocking hangs would show as watchdog timeouts (none observed).",
+    },
     "C03": {
         "technique": "post-state monitor (TracerPid/State/heartbeats) + offline signal-conservation checker over uniquely numbered signals, under exhaustive destination-fault enumeration (error and panic/unwind at every call index) and hook-placed signal schedules incl. the re-injection path",
         "level_text": "Every destination call index of the fault-free dump gets an injected error and an injected panic (unwinding), under several option sets; two later-stage hard errors; uniquely numbered standard (<19, >19) and realtime signals are placed at 11 hook points x group-stop succeeded/failed and by a concurrent sender. After every dump all threads must be untraced immediately, none may stay in t/T, heartbeats must advance, and multiset(sent)=multiset(logged) per thread. The run must observe re-injections (>0) or it fails as a harness error.",
